@@ -977,7 +977,7 @@ class Process:
         ret = []
         if not recursive:
             for pid, ppid in ppid_map.items():
-                if ppid == self.pid:
+                if ppid == self.pid and pid != self.pid:
                     try:
                         child = Process(pid)
                         # if child happens to be older than its parent
@@ -1004,6 +1004,11 @@ class Process:
                     continue
                 seen.add(pid)
                 for child_pid in reverse_ppid_map[pid]:
+                    if child_pid == self.pid:
+                        # PIDs can be reused while the ppid_map is
+                        # constructed: a process is never its own
+                        # descendant.
+                        continue
                     try:
                         child = Process(child_pid)
                         # if child happens to be older than its parent
